@@ -165,6 +165,15 @@ class SparselyBin(Factory, Container):
         if mine is not None and theirs is not None:
             mine + theirs  # raises ContainerException if the structures differ at any depth
 
+    def _adopt(self, sub):
+        """Copy of a bin that only the other operand has.
+
+        If this container can be filled (it has a value template) the copy is built from the template, so it stays
+        fillable even when the other operand is immutable (reloaded from JSON, as in ``fillsparksql``)."""
+        if self.value is not None:
+            return self.value.zero() + sub
+        return sub.copy()
+
     def _keepContentType(self, out):
         """An immutable container (from JSON or ed) has no value template.
 
@@ -213,7 +222,7 @@ class SparselyBin(Factory, Container):
                     out.bins[i] = v.copy()
             for i, v in other.bins.items():
                 if i not in out.bins:
-                    out.bins[i] = v.copy()
+                    out.bins[i] = self._adopt(v)
             return self._keepContentType(out).specialize()
 
         raise ContainerException(f"cannot add {self.name} and {other.name}")
@@ -239,7 +248,7 @@ class SparselyBin(Factory, Container):
                 if i in self.bins:
                     self.bins[i] += v
                 else:
-                    self.bins[i] = v.copy()
+                    self.bins[i] = self._adopt(v)
             self.nanflow += other.nanflow
             return self
         raise ContainerException(f"cannot add {self.name} and {other.name}")
